@@ -843,6 +843,10 @@ class ParallelProcess(Process):
         # Only end once.
         if self._ended:
             return
+        if self._pending_command:
+            # collect (and drop) the result of a command that is still
+            # in flight, e.g. when the process is deleted mid-update
+            self.get_command_result()
         self.send_command('end')
         if self.profile:
             stats = pstats.Stats()
